@@ -531,9 +531,11 @@ def build_strategy(bt, spec, spy_log=None):
         if not children:
             children = None
         cls = bt.FixedIncomeStrategy if spec.get("fi") else bt.Strategy
-        if spec.get("fi"):
-            return cls(t["name"], algos=algos, children=children)
-        return cls(t["name"], algos=algos, children=children)
+        node = cls(t["name"], algos=algos, children=children)
+        if t.get("preset_integer") is not None:
+            # a definition that was configured by its author before it is handed to a Backtest (whose settings then apply)
+            node.use_integer_positions(bool(t["preset_integer"]))
+        return node
 
     return mk(spec["tree"])
 
